@@ -196,6 +196,9 @@ def run(ctx):  # noqa: C901
                    f"block indices have roles rows={loops.get(rbk[1]) if isinstance(rbk, tuple) and rbk[0] == 'n' else rbk}, cols={loops.get(cbk[1]) if isinstance(cbk, tuple) and cbk[0] == 'n' else cbk}, questions={qr}", n)
     C07._objective_terms(ctx, npa, skn, rn, (), pred_positions=("A_out", "B_out", "A_in", "B_in"))
     C07._product_game(ctx, eg.methods["__init__"], role_names=EROLES)
+    from ..rules import r_dtype_default_buffer
+    ctx.rule("R-DTYPE", "buffers that receive slices of the (possibly complex) referee operators are allocated with their dtype")
+    r_dtype_default_buffer(ctx, eg.methods["__init__"], "pred_mat")
     from .npa_common import check_npa
     check_npa(ctx)
 
